@@ -1,4 +1,4 @@
-import Tmv.Lemmas.VoteArith0
+import Tmv.Lemmas.VoteArith
 /-! How the vote sets of a `HeightVoteSet` evolve: every set of a later stage is obtained from the
 set of the earlier stage (or from the empty set, for a round that was not tracked before) by adding
 votes and recording majority claims (`VReach`, `HExt`). Every `VoteSet` fact that is preserved by
@@ -47,6 +47,15 @@ theorem VReach.only {c : Cfg} {B : Vote → Prop} {a b : VoteSet} (h : VReach c 
   | add v _ hb ih => exact VoteSet.only_addVote v ih (hB v hb)
   | claim p k _ ih => exact VoteSet.only_setPeerMaj23 p k ih
 
+
+/-- a recorded majority is never replaced -/
+theorem VReach.maj23 {c : Cfg} {B : Vote → Prop} {a b : VoteSet} (h : VReach c B a b) {x : Bid}
+    (hm : a.maj23 = some x) : b.maj23 = some x := by
+  induction h with
+  | refl => exact hm
+  | add v _ _ ih => exact VoteSet.addVote_maj23 c _ v x ih
+  | claim p k _ ih => rw [VoteSet.setPeerMaj23_maj23]; exact ih
+
 /-! ### the height vote set -/
 
 def HVS.has (h : HVS) (r : Int) (t : VType) (key : Bid) (v : Nat) : Prop :=
@@ -56,6 +65,29 @@ def HVS.only (h : HVS) (r : Int) (t : VType) (key : Bid) (v : Nat) : Prop :=
   ∀ vs, h.getVoteSet r t = some vs → vs.only key v
 
 def HVS.WF (c : Cfg) (h : HVS) : Prop := ∀ r t vs, h.getVoteSet r t = some vs → vs.WF c
+
+
+/-- executable form of `HVS.has` (for concrete instances) -/
+def HVS.hasB (h : HVS) (r : Int) (t : VType) (key : Bid) (v : Nat) : Bool :=
+  match h.getVoteSet r t with
+  | some vs => (match alookup vs.byBlock key with
+    | some bv => bv.voted.contains v
+    | none => false)
+  | none => false
+
+theorem HVS.has_of_hasB {h : HVS} {r : Int} {t : VType} {key : Bid} {v : Nat}
+    (hb : h.hasB r t key v = true) : h.has r t key v := by
+  unfold HVS.hasB at hb
+  cases hg : h.getVoteSet r t with
+  | none => rw [hg] at hb; cases hb
+  | some vs =>
+    rw [hg] at hb
+    dsimp only at hb
+    cases hl : alookup vs.byBlock key with
+    | none => rw [hl] at hb; cases hb
+    | some bv =>
+      rw [hl] at hb
+      exact ⟨vs, hg, bv, hl, by simpa using hb⟩
 
 /-- `h'` is a later stage of `h`: `A r t` bounds the votes that were added to the set of (r, t) -/
 structure HExt (c : Cfg) (A : Int → VType → Vote → Prop) (h h' : HVS) : Prop where
@@ -109,6 +141,19 @@ theorem HExt.has {c : Cfg} {A : Int → VType → Vote → Prop} {a b : HVS} (h 
   obtain ⟨vs, hg, hv⟩ := hh
   obtain ⟨vs', hg', hr⟩ := h.fwd r t vs hg
   exact ⟨vs', hg', hr.has hv⟩
+
+
+theorem HExt.maj23 {c : Cfg} {A : Int → VType → Vote → Prop} {a b : HVS} (h : HExt c A a b)
+    {r : Int} {t : VType} {x : Bid} (hm : maj23Of (a.getVoteSet r t) = some x) :
+    maj23Of (b.getVoteSet r t) = some x := by
+  cases hg : a.getVoteSet r t with
+  | none => rw [hg] at hm; simp [maj23Of] at hm
+  | some vs =>
+    rw [hg] at hm
+    obtain ⟨vs', hg', hr⟩ := h.fwd r t vs hg
+    rw [hg']
+    simp only [maj23Of, Option.bind] at hm ⊢
+    exact hr.maj23 hm
 
 theorem HExt.tracked {c : Cfg} {A : Int → VType → Vote → Prop} {a b : HVS} (h : HExt c A a b)
     {r : Int} {t : VType} (ht : (a.getVoteSet r t).isSome = true) : (b.getVoteSet r t).isSome = true := by
